@@ -70,7 +70,7 @@ theorem budOk_of_margin {w : World} {P0 : List Op} {s' sEnd : St} {d' : Dec} (si
     (hmargin : w.len = size1 ∨ tell (w.encAt (P0 ++ sEnd.ops)) + 16 ≤ ((w.len * 8 : Nat) : Int)) :
     BudOk ((size1 * 8 : Nat) : Int) ((w.len * 8 : Nat) : Int) (tell s'.e) := by
   intro k hk0 hk16
-  obtain ⟨δ, hδ⟩ := hx
+  obtain ⟨δ, hδ, _⟩ := hx
   have hm := (w.tell_mono δ (P0 ++ s'.ops) (by rw [List.append_assoc, ← hδ]; exact hp)).1
   rw [List.append_assoc, ← hδ, ← h.enc] at hm
   constructor
